@@ -492,9 +492,10 @@ pub fn run_c12(ctx: &Ctx) -> i32 {
                 alphabet.push(Program { entry: Entry::User { sender: s.clone(), msg: Msg::UpdateAdmin { target: Target::Addr(t.clone()), admin: to.clone() } }, root: 0, nodes: vec![] });
             }
             alphabet.push(Program { entry: Entry::User { sender: s.clone(), msg: Msg::ClearAdmin { target: Target::Addr(t.clone()) } }, root: 0, nodes: vec![] });
-            for code in [1u64, 2, 3] {
+            // (code 3 does not exist; code 9 exists but was built without a migrate entry point: nothing to run)
+            for code in [1u64, 2, 3, 9] {
                 for fail in [false, true] {
-                    if code == 3 && fail {
+                    if (code == 3 || code == 9) && fail {
                         continue;
                     }
                     alphabet.push(Program { entry: Entry::User { sender: s.clone(), msg: Msg::Migrate { target: Target::Addr(t.clone()), code, node: 0 } }, root: 0, nodes: vec![mig_node(code, fail)] });
